@@ -362,6 +362,12 @@ def apply_edit(draw, s, kind, uid, protected=None):
         if len(impl) < 2:
             return None
         o = draw(st.sampled_from(impl))
+        for x in objs:   # is some result type narrowed to `o` only because `o` implements `i`?  (the schema would become invalid)
+            for j in types[x].get("interfaces", []):
+                for f in types[j]["fields"]:
+                    if GS.named(GS.parse_t(f["type"])) == i and any(
+                            of["name"] == f["name"] and GS.named(GS.parse_t(of["type"])) == o for of in types[x]["fields"]):
+                        return None
         types[o]["interfaces"].remove(i)
         return out(["TypeRemovedFromInterface"], [i, o], True)
     dirs = s["directives"]
@@ -615,6 +621,15 @@ def cases(draw):
         for t in spec["types"].values():
             if t["kind"] == "object" and lonely in t.get("interfaces", []):
                 t["interfaces"] = [i for i in t["interfaces"] if i != lonely]
+        # result types narrowed to an object *because* it implemented `lonely` go back to what the declaring interface says
+        for t in spec["types"].values():
+            if t["kind"] == "object":
+                for i in t.get("interfaces", []):
+                    for f in spec["types"][i]["fields"]:
+                        if GS.named(GS.parse_t(f["type"])) == lonely:
+                            for of in t["fields"]:
+                                if of["name"] == f["name"] and GS.named(GS.parse_t(of["type"])) != lonely:
+                                    of["type"] = of["type"].replace(GS.named(GS.parse_t(of["type"])), lonely)
     old = json.loads(json.dumps(spec))
     new = GS.Spec(json.loads(json.dumps(spec)))
     edits = []
